@@ -18,7 +18,7 @@ HOOKS = {
 
 ENGINES = [
     {'name': 'vf', 'path': 'vf/harness.py',
-     'serves_properties': ['C07'],
+     'serves_properties': ['C07', 'C20'],
      'kind_free_text': ('runtime monitoring driver: 16 worker processes import the real '
                         'openhtf from /repo, run enumerated + seeded cases, monitors '
                         'decide each property from observed events; witnesses are '
@@ -42,5 +42,17 @@ CHECKS = {
         'note': ('trusts the oracle in vf/props/c07.py (written from the property statement); '
                  'exceptions on non-numeric probes are treated as "not accepted"; percent limits '
                  'have a 4-ulp don\'t-care band'),
+    },
+    'C20': {
+        'level': 'exploration',
+        'technique': 'runtime model-based monitoring: reference dictionary model vs real _Configuration after every operation of enumerated and seeded operation sequences',
+        'text': ('all operation sequences of length <= 3 (quick) / <= 4 (thorough) over a 21-operation '
+                 'alphabet (declare, redeclare, load*, _override, _allow_undeclared, files, flags, reset, '
+                 'save_and_restore plain/with values/raising/nested, attribute assignment) plus seeded '
+                 'sequences of length <= 30 are applied to a fresh real _Configuration; after every '
+                 'operation all six read APIs are compared with the model for every key, and the '
+                 'metadata[\'config\'] snapshot of a real Test run is compared with item reads'),
+        'note': ('trusts the 60-line reference model in vf/props/c20.py; key universe of four valid '
+                 'lower-case keys; flags injected through load_flag_values(Namespace)'),
     },
 }
